@@ -14,7 +14,7 @@ from ..oracle import xmlread, xsdlite
 TECHNIQUE = 'runtime monitoring: every written file validated with libxml2 XMLSchema and a hand-written content-model checker after every generated command'
 LEVEL = "exploration"
 RULE = (
-    "case = tree x sequence of 1-4 commands drawn from create (1-6 formats incl. repeats, -n, -dr after renames, -i/-ii, "
+    "case = tree (6 % with a folder holding only a name XML 1.0 cannot store) x sequence of 1-4 commands drawn from create (1-6 formats incl. repeats, -n, -dr after renames, -i/-ii, "
     "creator options), create -sf (single, several, folder, overlapping, into deep child), edits causing exit 10/11, flatten; "
     "every file written is validated after every command; class = (file kind, option class, exit code, manifest shape)"
 )
